@@ -164,3 +164,14 @@ func FsRemoved(path string) bool {
 	_, err := os.Lstat(path)
 	return err != nil
 }
+
+// NativeAtomicDest (INTRINSIC: no-op) declares a destination whose publication
+// the replay driver checks on the real system calls (strace).
+func NativeAtomicDest(path string) {
+	_ = os.MkdirAll(filepath.Dir(path), 0o700)
+	fmt.Printf("VERIF-ATOMIC-DEST %s\n", path)
+}
+
+// NativeEnd (INTRINSIC: no-op) marks the end of the operation under test in
+// the system-call trace.
+func NativeEnd() { _, _ = os.Stat("/VERIF-MARK-END") }
